@@ -56,7 +56,7 @@ Proof. exact put_reject_clean. Qed.
 Print Assumptions C01_reject_clean.
 
 (* Completeness: a well-formed upload whose bytes are as declared is acknowledged whenever the
-   explicit space conditions hold (the reservation is admitted: size <= max, res + size <= max, hard
+   explicit space conditions hold (the reservation is accepted: size <= max, res + size <= max, hard
    limit not exceeded; the item fits next to the reservations once the old version is discounted).
    [k = CAS -> zstd -> 0 < sz]: the only digest of zero bytes is the empty one (oracle consistency). *)
 Theorem C01_ack_complete : forall c d k hash sz st rnd,
